@@ -300,7 +300,11 @@ func endToEnd(c *mon.Ctx, r *gen.Rand) {
 			}
 		}
 	}
-	h := ref.PES{StreamID: sid, Flags1: byte(r.Intn(64)), Flags2Low6: 0, PTSDTS: []byte{2, 3}[r.Intn(2)], PTS: r.U33(), DTS: r.U33(), Extra: r.Bytes(r.Intn(4)), Payload: r.Bytes(1 + r.Intn(8))}
+	fl2 := byte(0)
+	if r.Bool() {
+		fl2 = byte(r.Intn(64)) // further optional fields behind the timestamps (ESCR, ES_rate, ..., previous_PES_packet_CRC, extension)
+	}
+	h := ref.PES{StreamID: sid, Flags1: byte(r.Intn(64)), Flags2Low6: fl2, PTSDTS: []byte{2, 3}[r.Intn(2)], PTS: r.U33(), DTS: r.U33(), Extra: ref.PESOptionalFields(fl2, r.Bytes, r.PickInt([]int{0, 0, 1, 3})), Payload: r.Bytes(1 + r.Intn(8))}
 	if r.Chance(3) {
 		h.Payload = r.Bytes(r.Intn(6))
 	}
@@ -456,7 +460,7 @@ func run(c *mon.Ctx) {
 	// "no byte beyond the 6 (resp. 5) is touched", also not re-written with the value just read: a second
 	// goroutine owns the bytes next to the field and must always read back what it wrote last
 	c.Floor("neighbour_bytes.rounds", 100000)
-	c.Stream("concurrent-neighbour-bytes", c.N(2, 60), func(i int, r *gen.Rand) {
+	c.Stream("concurrent-neighbour-bytes", c.N(16, 160), func(i int, r *gen.Rand) {
 		prev := runtime.GOMAXPROCS(4)
 		defer runtime.GOMAXPROCS(prev)
 		buf := make([]byte, 32)
